@@ -688,8 +688,8 @@ func limitCfgs(kind, tier string) []Cfg {
 	cs = append(cs, Cfg{CSS: 2000, Reg: 128, Max: 8192, Grow: 32, Min: false}, Cfg{CSS: 2000, Reg: 5120, Max: 8192, Grow: 1, Min: true},
 		Cfg{CSS: 2000, Reg: 200, Max: 300, Grow: 25, Min: false}, Cfg{CSS: 2000, Reg: 129, Max: 129, Grow: 7, Min: true}, Cfg{CSS: 2000, Reg: 128, Max: 1000, Grow: 1, Min: false})
 	if tier == "thorough" {
-		// growing to 131072 cells in small steps is quadratic: thorough tier only
-		cs = append(cs, Cfg{CSS: 2000, Reg: 128, Max: 131072, Grow: 32, Min: true}, Cfg{CSS: 2000, Reg: 5120, Max: 131072, Grow: 32, Min: false}, Cfg{CSS: 2000, Reg: 5120, Max: 131072, Grow: 1, Min: false})
+		// growing to 131072 cells is slow (every resize copies the live prefix): thorough tier only, step 32; step 1 up to 16384
+		cs = append(cs, Cfg{CSS: 2000, Reg: 128, Max: 131072, Grow: 32, Min: true}, Cfg{CSS: 2000, Reg: 5120, Max: 131072, Grow: 32, Min: false}, Cfg{CSS: 2000, Reg: 5120, Max: 16384, Grow: 1, Min: false})
 	}
 	return cs
 }
